@@ -20,7 +20,8 @@ CONSTANTS Cases,          \* set of case numbers 0..N-1
           ResultFirst,    \* TRUE: result file written before the success marker (repaired order)
           OwnCaseNumber,  \* TRUE: returned record carries the worker's own case number
           ParserStripsParens, \* TRUE: restart header parser accepts tuple-formatted must_include
-          CrashInHeader   \* TRUE: the kill may also land inside the header write
+          CrashInHeader,  \* TRUE: the kill may also land inside the header write
+          Transient       \* TRUE: the set of cases whose study function raises may differ from one incarnation to the next
 
 VARIABLES hdr, dir, marker, res, errf,
           ppc, skip, wpc, ret, out,
@@ -162,7 +163,9 @@ Rerun == /\ \/ ppc = "dead" /\ inc < MaxInc
          /\ inc' = inc + 1
          /\ ppc' = "init" /\ skip' = {} /\ wpc' = WIdle /\ ret' = {} /\ out' = {}
          /\ doneAtCrash' = doneAtCrash \cup Completed
-         /\ UNCHANGED <<disk, execs, crashes, fail, kind>>
+         \* transient failures: a case that raised in one incarnation may succeed in a later one (its error.log stays on disk)
+         /\ fail' \in (IF Transient THEN FailSets ELSE {fail})
+         /\ UNCHANGED <<disk, execs, crashes, kind>>
 
 Worker(c) == WLog(c) \/ WMkDir(c) \/ WExec(c) \/ WErr(c) \/ WMarker(c) \/ WLogOk(c) \/ WResBegin(c) \/ WResEnd(c)
 Parent == PStartFresh \/ PHeaderEnd \/ PParse \/ PScan \/ PPoolDone \/ (\E c \in Cases : PLoad(c)) \/ PFinish
@@ -188,10 +191,12 @@ C18_RestartCompletes == ppc # "raised"
 C18_EventuallyDone == <>[](ppc = "done")
 
 \* at the end every case has exactly one record, equal to the uninterrupted run's
-Expected(c) == IF c \in fail THEN "None" ELSE "F"
+\* (a case loaded from disk completed in an earlier incarnation: its value is the successful one whatever fails now)
+Expected(c, src) == IF src = "run" /\ c \in fail THEN "None" ELSE "F"
 C18_ExactlyOneResult ==
   ppc = "done" => \A c \in Cases : /\ Cardinality({r \in out : r.case = c}) = 1
-                                   /\ \A r \in out : r.case = c => r.val = Expected(c)
+                                   /\ \A r \in out : r.case = c => r.val = Expected(c, r.src)
+                                   /\ (c \in doneAtCrash => \A r \in out : r.case = c => r.val = "F")
 
 \* every reported result carries its own case number and grid index
 C18_OwnIdentity == ppc = "done" => \A r \in out : r.cn = r.case /\ r.idx = r.case
